@@ -41,7 +41,9 @@ func runProxy(commandPrefix string, cmdBuilder func(temp string, needBash bool) 
 	defer os.Remove(output)
 
 	// Take the output
+	outputDone := make(chan struct{})
 	go func() {
+		defer close(outputDone)
 		withOutputPipe(output, func(outputFile io.ReadCloser) {
 			if opts.Output == nil {
 				io.Copy(os.Stdout, outputFile)
@@ -158,5 +160,8 @@ func runProxy(commandPrefix string, cmdBuilder func(temp string, needBash bool) 
 		}
 	}
 
+	// The command has written its output to the pipe and closed it.
+	// Make sure that all of it is relayed before we exit.
+	<-outputDone
 	return ExitOk, nil
 }
